@@ -27,7 +27,7 @@ RULE = (
     "touch/nest/share an end point, 20% with self-overlapping operands, parents none/with sequence/mismatched). "
     "Non-trivial = distinct (shape A, shape B, offset, strands) whose spans touch or overlap (not 'far apart')."
 )
-SCOPE = {"quick": {"GP": 5, "GU": 7, "NR": 3000}, "thorough": {"GP": 7, "GU": 10, "NR": 40000}}
+SCOPE = {"quick": {"GP": 5, "GU": 7, "NR": 9000}, "thorough": {"GP": 7, "GU": 10, "NR": 40000}}
 EXHAUSTIVE_SCOPE = {t: f"pairs: genome {s['GP']}, <=2 blocks, 3 strands; unary: genome {s['GU']}, <=3 blocks" for t, s in SCOPE.items()}
 FLOOR = {"quick": 20000, "thorough": 100000}
 REQUIRED_MONITORS = ["inv.wellformed", "inv.span", "inv.normalised", "inv.no-empty-block", "set.has_overlap", "set.intersection", "set.union",
